@@ -108,6 +108,29 @@ NOTES.update({
     "C18_r": "the stock JsonDecoder only: a user-written decoder (extension point open_file) that parses a description once, and descriptions decoded again",
     "C19_r": "no keyword-like names: `in`, `in_`, `class`, `class_`, `None`, substrings of NONE",
 })
+NOTES.update({
+    "C02_s": "C02's histories had no systems that let themselves go: every fourth history has mutating scripts (clean_up, removal and registration of others) and re-registrations",
+    "C03_t": "a detach followed by attach + register of a fresh instance of the same type was rare: `swap` sequences on residents",
+    "C04_s": "agents in C04's histories rarely carried components: more components (three or more holders of a type)",
+    "C04_t": "the environment's own identifier was never used as an agent identifier / looked up: `ENVIRONMENT` is one of the ids",
+    "C05_t": "the driver re-configured a system object whenever it registered it again: an unchanged configuration now leaves the object exactly as the library left it",
+    "C06_t": "the error flag was only passed by keyword: also by position",
+    "C07_s": "systems were only registered while the model was built: a one-shot set-up system registers four equal-priority systems from inside its execute()",
+    "C08_s": "dyadic coordinates in wrapping worlds: decimal starts and deltas (several laps) in continuous wrapping worlds with arbitrary float extents, landing point compared with the statement's own formula",
+    "C09_s": "C09's array layers were integer arrays: float64 arrays of decimal fractions",
+    "C09_t": "no lookup layers in C09's worlds: two layers from one lookup generator whose table is replaced in between (generic worlds)",
+    "C10_s": "no rejected neighbourhood query: every fourth query is preceded by one with an unsupported return type",
+    "C10_t": "position components of nobody: components owned by an agent that is not in the world",
+    "C11_t": "truthy or zero constants only: the constant False (must come back as a false bool)",
+    "C12_t": "every answer was edited or dropped at once: every other answer is kept unedited and compared with itself after the next query",
+    "C13_t": "the driver logged the tag it read back: it logs the tag it asked for (explicit, else the class default at that moment); a class with a non-zero default tag",
+    "C15_s": "no parameter value None, labels not part of a run's signature: label None, label index in the signature",
+    "C16_s": "a re-used list always kept its values: the grid is shifted between two searches (remove + declare again)",
+    "C18_s": "every system entry declared all scheduling keys: keys with the documented default value are left out of every other entry",
+    "C19_s": "`__weakref__` and attributes inherited from object (`__eq__`, `__repr__`, `__hash__`) were not among the reserved names tried",
+    "C20_s": "class components were built for nobody (agent None): built for the class they are first attached to, as the library's tests do",
+    "C20_t": "class components were always truthy: type Q is an empty container",
+})
 ROUNDS = "abcdefghijklmnopqrstuvwxyz"
 
 
@@ -144,9 +167,9 @@ def main():
         firsts[rnd] = firsts.get(rnd, 0) + (1 if missed else 0)
     head = ("\n### 11.5 Independently seeded changes (`/verif/seeded/<id>/`)\n\n"
             f"{total} changes were produced in {max(firsts)} rounds by fresh sub-agents that saw only the text of one property and a scratch worktree "
-            "(two per property and round; ids `_a`,`_b` = round 1, `_c`,`_d` = round 2, `_e`,`_f` = round 3, `_g`,`_h` = round 4, `_i`,`_j` = round 5, `_k`,`_l` = round 6, `_m`,`_n` = round 7, `_o`,`_p` = round 8, `_q`,`_r` = round 9; the agents of later rounds were told "
+            "(two per property and round; ids `_a`,`_b` = round 1, `_c`,`_d` = round 2, `_e`,`_f` = round 3, `_g`,`_h` = round 4, `_i`,`_j` = round 5, `_k`,`_l` = round 6, `_m`,`_n` = round 7, `_o`,`_p` = round 8, `_q`,`_r` = round 9, `_s`,`_t` = round 10; the agents of later rounds were told "
             "what the earlier rounds had produced and asked for something different; round 4 was asked to stay strictly inside the quantifier text, "
-            "round 5 to look for the least obvious failure, round 6 to prefer code no earlier change had touched, round 7 to look for interactions of two features and boundary values, round 8 to write refactorings and small features that drop something the old code did implicitly, round 9 to start from a realistic user model). Each passes the 110 tests, and its demonstration fails with the change and passes without it "
+            "round 5 to look for the least obvious failure, round 6 to prefer code no earlier change had touched, round 7 to look for interactions of two features and boundary values, round 8 to write refactorings and small features that drop something the old code did implicitly, round 9 to start from a realistic user model, round 10 to look at life cycles, rejected operations, returned objects and defaults). Each passes the 110 tests, and its demonstration fails with the change and passes without it "
             "(re-confirmed by `tools/seedcheck.py import`). `tools/seedcheck.py run` applies a patch to `/repo`, runs the property's quick check "
             "and undoes it (`git checkout -- .`); `run --scratch` does the same on a scratch copy (`VERIF_REPO`) so that runs can go in parallel. "
             f"**{own} of the {total} are detected by the quick check of their own property** (`result_quick.json`, current checks), {other} by the check of the "
